@@ -1,6 +1,81 @@
-"""C12 - formatter (family "format").  Under construction."""
+"""C12 - formatter: total, meaning- and comment-preserving, idempotent without comments (family "format")."""
+import json
+import os
+
+import vlib
+import props_c05
+
+GRID = [(lw, iw) for iw in (0, 2, 4, 8) for lw in (1, 20, 40, 80, 200)]
 
 
-def C12(prop, tier, replay):
-    print("C12: not built yet")
-    return 2
+def _case(world, c, i):
+    c = dict(c)
+    c["id"] = i
+    return c
+
+
+def _files(fam, tier, wd, seed):
+    """binding T: the formatter's fixture files and every policy file of the tree, over the settings grid"""
+    cases = []
+    for k, p in enumerate(props_c05.policy_files()):
+        fixture = "/cedar-policy-formatter/tests/" in p
+        if tier == "thorough" or fixture:
+            cfgs = GRID
+        else:
+            cfgs = [GRID[(k + 5 * j) % 20] for j in range(4)]
+        cases.append(dict(kind="file", id="f%d" % k, path=p, cfgs=[list(c) for c in cfgs]))
+    cpath = os.path.join(wd, "files.cases.ndjson")
+    tpath = os.path.join(wd, "files.trace.ndjson")
+    vlib.write_ndjson(cpath, cases)
+    vlib.conform("replay", "format", cpath, tpath)
+    return [(tpath, "T:files", "Trace_Format.tla")]
+
+
+def _mutate(ev):
+    """canary: a comment of the output is lost / two are swapped / the output's meaning changes"""
+    if ev.get("ev") not in ("Format", "FormatFile") or ev.get("out", [""])[0] != "ok":
+        return None
+    ev = json.loads(json.dumps(ev))
+    c = ev.get("cout") or []
+    if len(c) >= 2 and c[0] != c[1]:
+        c[0], c[1] = c[1], c[0]
+    elif len(c) == 1:
+        ev["cout"] = []
+    else:
+        v = ev["views"][0]
+        if not v["p"]:
+            return None
+        p = json.loads(json.dumps(v["p"]))
+        p[0]["effect"] = "forbid" if p[0]["effect"] == "permit" else "permit"
+        if len(v["as"]) > 1:
+            v["as"] = [r for r in v["as"] if r != "out"]
+            ev["views"].append({"as": ["out"], "p": p})
+        else:
+            v["p"] = p
+    return ev
+
+
+C12 = dict(
+    family="format", trace_module="Trace_Format.tla",
+    models=[dict(name="mc_format", module="MC_Format.tla",
+                 cfg=dict(quick="MC_Format_quick.cfg", thorough="MC_Format_thorough.cfg"), cases=_case)],
+    extra_traces=_files,
+    nontrivial=lambda ev: ev.get("ev") in ("Format", "FormatFile"),
+    key=lambda ev: [ev.get("pols"), ev.get("places"), ev.get("cfg"), ev.get("src"), ev.get("style")],
+    mutate=_mutate, chunk=2500,
+    rule="G: MC_Format (TLC-enumerated): 24 policy sets from the C05 space (15 small ones covering every construct; 9 long ones - 12-operand && / || chains, "
+         "10-term arithmetic, 9-deep attribute paths, nested if, 12-element set, nested records, a 3-policy set with annotations and templates - that force line "
+         "breaks at every width), rendered by Syntax!SxToks in 4 styles (minimal, full, redundant, redundant with trailing commas), with comment placements: "
+         "none; one comment at every token boundary (own line / trailing); comments at all boundaries at once (3 layouts incl. blank lines); pairs of boundaries "
+         "(all pairs for small texts, adjacent/far pairs for long ones); 10 special comment texts (empty, nested //, quotes, keywords, a whole policy, brackets) "
+         "at 4-7 boundaries; blank-line mixtures; end-of-file comments. Settings: line_width {1,20,40,80,200} x indent {0,2,4,8}: all 20 for the none/all "
+         "placements, 2-4 per placement otherwise (rotating so the grid is covered). The harness assembles the text, calls policies_str_to_pretty twice, "
+         "re-parses input / output / re-formatted output and scans comments with its own scanner; TLC requires: both calls succeed; all three texts project to "
+         "Syntax!SxSetCore of the surface set in id order; the comments of all three texts equal Comments!CommentsOf(placement); output = re-formatted output "
+         "when there are no comments. T: the formatter's 21 fixture files at the whole grid and every other *.cedar file of the tree at 4 settings, with the "
+         "input's own projection / comments as reference. distinct by (surface set, style, placement, settings) / (file, settings).",
+    exhaustive=dict(quick=False, thorough=False),
+    assumptions=["a comment is identified by its text up to trailing white space (the formatter trims it); layout quality is out of scope",
+                 "the harness's text assembly and comment scanner are faithful (the scanner is checked on every input against the placement)",
+                 "the formatter's own soundness_check is code under test and not relied upon"],
+)
